@@ -148,7 +148,22 @@ def analyze_bmc(scn, timeout_s=900, reduce=True, por=True, K=None, want_witness=
     return res
 
 
-def analyze(scn, timeout_s=900, reduce=True, verbose=False, seed=0, raw_states=30000, raw_s=20.0,
+def analyze(scn, **kw):
+    """analyze_once, restarted when a fingerprint merge is refuted (the offending fingerprints are black-listed)."""
+    from . import explore as _ex
+    _ex.FP_BLACKLIST.clear()
+    for attempt in range(8):
+        res = analyze_once(scn, **kw)
+        bad = res.pop('_merge_refuted', None)
+        if not bad:
+            res['merge_restarts'] = attempt
+            return res
+        _ex.FP_BLACKLIST.update(bad)
+    res['reason'] = 'fingerprint merges kept being refuted'
+    return res
+
+
+def analyze_once(scn, timeout_s=900, reduce=True, verbose=False, seed=0, raw_states=30000, raw_s=20.0,
             red_states=3_000_000, red_s=900.0, max_iters=60, on_violation=None, want_witness=True,
             local_states=300, **_ignored):
     """Inductive-invariant analysis (induct.py).  Returns a dict: verdict in
@@ -167,9 +182,23 @@ def analyze(scn, timeout_s=900, reduce=True, verbose=False, seed=0, raw_states=3
     with stubs.patched(scn.modules, deque_in=scn.deque_in, extra=scn.extra_patches(),
                        tracked=getattr(scn, 'tracked', ())):
         ex = Explorer(scn, seed=seed, verbose=verbose)
+        def refuted(e):
+            # black-list every fingerprint on the merged node's alternative histories
+            n = e.node
+            fps = set()
+            m = n
+            while m is not None:
+                if m.fp is not None:
+                    fps.add((e.tname, m.fp))
+                m = m.parent
+            return fps
+
         try:
             ex.explore(max_states=raw_states, max_s=raw_s)
         except Exception as e:
+            from .explore import MergeRefuted
+            if isinstance(e, MergeRefuted):
+                res['_merge_refuted'] = refuted(e)
             res['reason'] = f'exploration: {type(e).__name__}: {e}'
             return res
 
@@ -212,6 +241,9 @@ def analyze(scn, timeout_s=900, reduce=True, verbose=False, seed=0, raw_states=3
                         ex.continue_from(steps_of(path, (t, e)), {}, None,
                                          max_states=local_states, max_s=2.0)
                 except Exception as e_:
+                    from .explore import MergeRefuted
+                    if isinstance(e_, MergeRefuted):
+                        res['_merge_refuted'] = refuted(e_)
                     res['reason'] = f'frontier expansion: {type(e_).__name__}: {e_}'
                     break
                 continue
